@@ -157,6 +157,14 @@ func genC12(w *bufio.Writer, tier string, rng *rand.Rand) {
 		}
 		if kern == "gauss" && mode == 0 { // deep tails of the unbounded Gaussian estimate
 			qs = append(qs, lo-hEff*(4+rng.Float64()*6), lo-hEff*(9+rng.Float64()*25), hi+hEff*(4+rng.Float64()*6))
+			// out to where the density leaves the float64 range (38.6 bandwidths), on either side
+			qs = append(qs, lo-hEff*(34+rng.Float64()*5), hi+hEff*(34+rng.Float64()*5), hi+hEff*(9+rng.Float64()*25))
+			// and at distances (in bandwidths) aimed at the numeric constants of the code
+			for _, d := range dictFloats(rng, 2) {
+				if d = math.Abs(d); d > 0 && d < 39 {
+					qs = append(qs, lo-hEff*d, hi+hEff*d)
+				}
+			}
 		}
 		if wide {
 			if len(xs) > 3 {
